@@ -178,6 +178,7 @@ def check(ctx, rep: Report):
     # ---- TC
     rep.rules["C03.TC"] = "every mutate_attr(type_check=<not True>) call passes a collection-mutator chain as value"
     nsites = 0
+    resolver = _ChainResolver(ctx.p)
     for fi in ctx.p.iter_functions():
         if fi.is_lambda:
             continue
@@ -190,13 +191,16 @@ def check(ctx, rep: Report):
                 continue
             nsites += 1
             val = [k.value for k in node.keywords if k.arg == "value"]
-            ok = bool(val) and _is_mutator_chain(val[0])
+            if not val and len(node.args) >= 3:
+                val = [node.args[2]]
+            ok = bool(val) and (_is_mutator_chain(val[0]) or resolver.value_ok(fi, val[0], node.lineno))
             rep.oblige("C03.TC", f"{short}", ok)
             if not ok:
                 site = f"{fi.module.relpath}:{node.lineno}"
                 rep.violate(Violation("C03.TC", f"C03.TC|{short}",
                                       f"{short} calls mutate_attr with type_check={ast.unparse(tc[0].value)} for a value that is not the result of a collection-mutator chain: the value is stored unchecked",
                                       site, short))
+    nsites += resolver.sites
     if nsites < 12:
         raise AnalysisError(f"C03.TC: {nsites} type_check=False sites (floor 12)")
 
@@ -307,6 +311,9 @@ def check(ctx, rep: Report):
         rep.violate(Violation("C03.VAL", f"C03.VAL|{b[:80]}", f"bounded(): {b}: out-of-range values are stored in attributes annotated with the bounded type", "", "bounded.<locals>.validator"))
 
 
+MUTATOR_OPS = ("add_item", "add_items", "transform_item", "remove_item", "prepare")
+
+
 def _is_mutator_chain(expr) -> bool:
     """<x>.get_collection_mutator(...).<op>(...)[.<op>(...)]*.collection"""
     if not (isinstance(expr, ast.Attribute) and expr.attr == "collection"):
@@ -317,9 +324,104 @@ def _is_mutator_chain(expr) -> bool:
         name = cur.func.attr
         if name == "get_collection_mutator":
             return ops >= 1
-        if name not in ("add_item", "add_items", "transform_item", "remove_item", "prepare"):
+        if name not in MUTATOR_OPS:
             return False
         ops += 1
         cur = cur.func.value
     return False
 
+
+class _ChainResolver:
+    """Resolves `value=` expressions of mutate_attr(type_check=False) calls to collection-mutator chains
+    through local names (reaching assignments) and helper parameters (all static call sites)."""
+
+    def __init__(self, p):
+        self.p = p
+        self.callers = {}
+        from .base import static_callees
+        for fi in p.iter_functions():
+            if fi.is_lambda:
+                continue
+            for node, g in static_callees(p, fi):
+                self.callers.setdefault(g.qualname, []).append((fi, node))
+        self.sites = 0
+
+    def value_ok(self, fi, expr, line, depth=0):
+        """expr evaluates to <mutator>.collection with >=1 mutator operation applied."""
+        if depth > 6:
+            return False
+        if isinstance(expr, ast.Attribute) and expr.attr == "collection":
+            n = self.mutator_ops(fi, expr.value, line, depth)
+            return n is not None and n >= 1
+        if isinstance(expr, ast.Name):
+            return self._via_name(fi, expr.id, line, depth, lambda f, e, l, d: self.value_ok(f, e, l, d))
+        return False
+
+    def mutator_ops(self, fi, expr, line, depth):
+        """number of mutator operations applied on top of get_collection_mutator(), or None."""
+        if depth > 6:
+            return None
+        if isinstance(expr, ast.Call) and isinstance(expr.func, ast.Attribute):
+            name = expr.func.attr
+            if name == "get_collection_mutator":
+                return 0
+            if name in MUTATOR_OPS:
+                n = self.mutator_ops(fi, expr.func.value, line, depth)
+                return None if n is None else n + 1
+            return None
+        if isinstance(expr, ast.Name):
+            res = []
+
+            def rec(f, e, l, d):
+                n = self.mutator_ops(f, e, l, d)
+                res.append(n)
+                return n is not None
+            if not self._via_name(fi, expr.id, line, depth, rec):
+                return None
+            return min(res) if res else None
+        return None
+
+    def _via_name(self, fi, name, line, depth, rec):
+        top = {id(s) for s in fi.node.body}
+        assigns = []
+        for n in walk_own(fi.node):
+            if isinstance(n, ast.Assign) and len(n.targets) == 1 and isinstance(n.targets[0], ast.Name) \
+                    and n.targets[0].id == name and n.lineno < line:
+                assigns.append(n)
+            elif isinstance(n, (ast.AugAssign, ast.AnnAssign, ast.NamedExpr, ast.For, ast.With)) and name in {
+                    x.id for x in ast.walk(getattr(n, "target", None) or ast.Tuple(elts=[])) if isinstance(x, ast.Name)} \
+                    and n.lineno < line:
+                return False
+        assigns.sort(key=lambda n: -n.lineno)
+        for a in assigns:
+            if not rec(fi, a.value, a.lineno, depth + 1):
+                return False
+            if id(a) in top:             # dominates the use: earlier assignments are dead
+                return True
+        if assigns:
+            # only conditional assignments: the parameter/earlier value may also reach the use
+            pass
+        params = [x.arg for x in fi.node.args.posonlyargs + fi.node.args.args + fi.node.args.kwonlyargs]
+        if name not in params:
+            return bool(assigns) and False
+        callers = self.callers.get(fi.qualname, [])
+        if not callers:
+            return False
+        pos = [x.arg for x in fi.node.args.posonlyargs + fi.node.args.args]
+        for cfi, call in callers:
+            arg = None
+            for k in call.keywords:
+                if k.arg == name:
+                    arg = k.value
+            if arg is None and name in pos:
+                i = pos.index(name)
+                if fi.cls is not None and pos and pos[0] in ("self", "cls") and isinstance(call.func, ast.Attribute) \
+                        and not any(isinstance(d, ast.Name) and d.id == "staticmethod" for d in fi.node.decorator_list):
+                    i -= 1
+                if 0 <= i < len(call.args) and not any(isinstance(x, ast.Starred) for x in call.args):
+                    arg = call.args[i]
+            if arg is None or not rec(cfi, arg, call.lineno, depth + 1):
+                return False
+            self.sites += 1
+        self.sites -= 1          # the helper's own site was already counted once
+        return True
